@@ -34,7 +34,7 @@ def configs(tier):
         opts = spec.opts
         for i, o in enumerate(opts):
             cfgs.append({'kind': 'inst', 'spec': spec.name, 'i': i, 'depth': 2 if thorough else 1,
-                         'npts': 5 if thorough else 3})
+                         'npts': 5 if thorough else 4})
     for spec in OR.SPECS:
         for i in range(len(spec.opts) if thorough else min(2, len(spec.opts))):
             cfgs.append({'kind': 'reject', 'spec': spec.name, 'i': i})
